@@ -3,6 +3,8 @@
 // pointer identity.  Reports one record per node: {path, kind, none, got, gotkind}.  Decides nothing.
 use cddl::ast::parent::ParentVisitor;
 use cddl::ast::*;
+#[allow(unused_imports)]
+use cddl::token::ControlOperator;
 use serde_json::{json, Value as J};
 use std::collections::HashMap;
 
@@ -76,6 +78,15 @@ impl<'a, 'b: 'a> Walk<'a, 'b> {
       let mut r = q.clone();
       r.push(0);
       self.type2(&r, &op.type2);
+      // the range / control operator token of the operator, and the control operator it names
+      let mut r = q.clone();
+      r.push(1);
+      self.add(&r, "RangeCtlOp", addr(&op.operator), CDDLType::RangeCtlOp(&op.operator));
+      if let RangeCtlOp::CtlOp { ctrl, .. } = &op.operator {
+        let mut c = r.clone();
+        c.push(0);
+        self.add(&c, "ControlOperator", addr(ctrl), CDDLType::ControlOperator(ctrl));
+      }
     }
   }
 
@@ -222,6 +233,8 @@ fn key_of(t: &CDDLType) -> Key {
     CDDLType::Type1(x) => ("Type1", addr(*x)),
     CDDLType::Type2(x) => ("Type2", addr(*x)),
     CDDLType::Operator(x) => ("Operator", addr(*x)),
+    CDDLType::RangeCtlOp(x) => ("RangeCtlOp", addr(*x)),
+    CDDLType::ControlOperator(x) => ("ControlOperator", addr(*x)),
     CDDLType::Occurrence(x) => ("Occurrence", addr(*x)),
     CDDLType::ValueMemberKeyEntry(x) => ("ValueMemberKeyEntry", addr(*x)),
     CDDLType::TypeGroupnameEntry(x) => ("TypeGroupnameEntry", addr(*x)),
